@@ -9,6 +9,10 @@ func init() {
 	registerRule("R14", ruleR14)
 	registerRule("R34", ruleR34)
 	registerRule("R12", ruleR12)
+	registerRule("R29", ruleR29)
+	registerRule("R31", func(c *Ctx) { c.run("R29") })
+	registerRule("R26", ruleR26)
+	registerRule("R17", ruleR17)
 	registerRule("R20", ruleR20)
 	registerRule("R15", ruleR15)
 	registerRule("R32", ruleR32R33)
@@ -99,4 +103,20 @@ func init() {
 		Rules: []string{"R32", "R33", "R06", "R16"},
 		Explain: "R32 each of the ~180 uses of package unsafe matches a pattern under which the collector sees every reference (typed pointer → unsafe.Pointer; tag-checked typed view; reinterpretation of a pointer-free local of fitting size; unsafe.Slice over a pointer/length field pair of one leaf; SliceData); no pointer↔uintptr conversion, unsafe.Add, reflect, cgo or linkname; key bytes sit behind typed *byte fields; R33 leaves read through another kind's leaf type (signed/float Range read through unsignedLeafNode) have identical field names, types, order and accessor bodies; R06 tag-checked casts; R16 pointer and length of a stored key come from the same slice.",
 		NotDecided: "Behaviour of the Go collector itself (trusted as documented for unsafe.Pointer patterns (1) and (6))."})
+	registerProp(&propSpec{ID: "C13", Level: "other", DesignRef: "§4 C13",
+		Rules: []string{"R26"},
+		Explain: "R26 must-dataflow of the fact 'this slice variable refers to memory the library allocated itself' (established by make/copy helpers, string→[]byte conversions, bytes.Clone, and callees whose every return is such a value – derived from their own bodies). Every write sink (append, copy, indexed store, passing to a callee that writes through that parameter) and every retention sink (unsafe.SliceData / &x[i] / storing the slice in a leaf literal or tree memory; sinks inside the leaf-creating closure are evaluated at each of its call sites) on a slice that may alias a key argument requires that fact; 64 functions reachable from Insert/Search/Delete/Prefix/Range of the byte-keyed kinds (byte-string and collation).",
+		NotDecided: "Compound codecs written by the user (out of the property's scope). One named exception, printed in evidence: CollationOrderKey.src keeps the last key slice as codec scratch that no function reachable from the Tree API reads."})
+	registerProp(&propSpec{ID: "C15", Level: "other", DesignRef: "§4 C15",
+		Rules: []string{"R29", "R02", "R04", "R03", "R14", "R25", "R23"},
+		Explain: "R29 effect analysis of the 111 functions reachable (call graph incl. method values, interface fan-out, closures) from Search/Minimum/Maximum/Size/All/Backward/Prefix/Range/TopK/BottomK of every kind: every store and every call that writes through an argument targets a local value or memory the function allocated itself – no store reaches tree memory, a captured variable or a package variable; R02/R04 every mutation of Delete is dominated by the successful full-key comparison and a false return carries no tree write; R03 the overwrite path of Insert carries the value store and nothing else (no node store without a split); R14/R25/R23 only Insert/Delete write size, root and node fields.",
+		NotDecided: "Named exception (printed in evidence): the collation codec scratch (CollationOrderKey.src, its collate.Buffer and the collator's iterators) is written by queries of collation trees; it is outside the node graph and unobservable through the Tree API."})
+	registerProp(&propSpec{ID: "C16", Level: "other", DesignRef: "§4 C16",
+		Rules: []string{"R30", "R24", "R25", "R29"},
+		Explain: "Static race freedom = no conflicting access pair exists: R30 the only package-level variables are the sync.Pool array (used only through Get/Put) and read-only tables; R24 pooled nodes are completely cleared and unreferenced by the releasing tree; R25 per-tree state is {root, size, codec}; R29 queries of byte-string, numeric and compound trees store nothing that outlives the call, so concurrent readers of one quiescent tree only read. Collation trees are correctly not covered (their queries write codec scratch) – exactly the property's carve-out.",
+		NotDecided: "The Go memory model guarantees of sync.Pool (trusted); a user-supplied compound codec with shared mutable state (premise of the property)."})
+	registerProp(&propSpec{ID: "C17", Level: "other", DesignRef: "§4 C17",
+		Rules: []string{"R17", "R29", "R04", "R24", "R03"},
+		Explain: "Structural content of 'no per-operation leak': R29/R31 nothing a query allocates is stored into memory that outlives the call; R17 the sort key is copied out of the tree-lifetime collate.Buffer and the buffer is reset on every path, so it neither grows with the number of operations nor is aliased by stored leaves; R03 an overwrite of a present key stores only the value; R04 a successful Delete overwrites the slot that held the leaf (the leaf and its key bytes become unreachable); R24 emptied nodes go back to the pool cleared.",
+		NotDecided: "Actual heap numbers; stale duplicates left in unoccupied child slots by copy-shifting are bounded by node capacity (noted, not flagged)."})
 }
